@@ -242,6 +242,13 @@ class EpisodeMonitor:
                 # a refreshed entry is a NEW entry: its lifetime starts at the refresh
                 if o["check"] and stored and d is not None and key in d[0] and d[0][key][0] == o["would"] and d[0][key][2] >= 1000:
                     self.fail("C11", f"call {op}: the entry was judged stale and replaced, but the fresh entry's age is {d[0][key][2]} ms (it inherited the birth time of the entry it replaced and will expire early)")
+                # C09: a failing call leaves NO trace of its key: the lookup missed (or purged an expired entry), nothing is stored,
+                # so neither an entry nor an order-queue slot for the key remains (a left-over slot counts against the limit
+                # and makes the next store evict a live Ok)
+                if s["is_result"] and not s["cache_if"] and not o["wok"] and not o["check"] and d is not None and \
+                        (key in d[0] or key in d[1]):
+                    self.fail("C09", f"call {op}: the body failed (Err) after a missed lookup, yet the cache still tracks the key afterwards "
+                                     f"({'entry' if key in d[0] else 'order-queue slot without entry'})")
                 if (not stored) and d is not None and key in d[0] and d[0][key][0] == o["would"] and \
                         (not o["check"] or o["check"][0][2] != o["would"]):
                     pid = "C10" if s["cache_if"] else "C09"
